@@ -1,4 +1,6 @@
 import Eliot.Properties.C12
+import Eliot.Proofs.Handover
+import Eliot.Proofs.HandoverFix
 #print axioms Sys.C12.trim1000_trim
 #print axioms Sys.C12.bufPhase_basic
 #print axioms Sys.C12.buffered_until_first_add
@@ -8,3 +10,11 @@ import Eliot.Properties.C12
 #print axioms Sys.C12.after_remove
 #print axioms Sys.C12.globals_are_dict
 #print axioms Sys.C12.globals_at_delivery
+#print axioms Eliot.Conc.HandoverFix.handover_no_loss
+#print axioms Eliot.Conc.HandoverFix.handover_no_overtake
+#print axioms Eliot.Conc.HandoverFix.handover_drain_exclusive
+#print axioms Eliot.Conc.Handover.handover_race_witness
+#print axioms Eliot.Conc.Handover.handover_no_loss_false
+#print axioms Eliot.Conc.Handover.handover_race_witness_empty_list
+#print axioms Eliot.Conc.Handover.handover_race_witness_prebuffered
+#print axioms Eliot.Conc.Handover.handover_overtake_witness
